@@ -43,7 +43,7 @@ namespace EasyFEAVerif.Props.C08
 
 open Matrix Finset EasyFEAVerif.Gen
 
-theorem forms_spec : (C08.forms.map Prod.fst) = ["Rotate", "Symmetry", "Translate", "Get_normals_e_pg", "Get_jacobian_e_pg"] := rfl
+theorem forms_spec : (C08.forms.map Prod.fst) = ["Rotate", "Symmetry", "Translate", "Get_normals_e_pg", "Get_jacobian_e_pg", "Geom.Translate", "Geom.Rotate", "Geom.Symmetry"] := rfl
 
 /-! ### the movers are orthogonal -/
 
